@@ -52,6 +52,11 @@ type Cache struct {
 	// (PassthroughCluster, the cluster of the Sidecar's egressProxy, the ALLOW_ANY_DYNAMIC_DNS forward proxy
 	// cluster; empty when there is no catch-all route to a cluster). AllowAny alone does not determine it.
 	CatchAllCluster string
+	// AttemptCount (include_request_attempt_count) and XForwardedHost (append_x_forwarded_host) are the effective
+	// ProxyConfig.proxyHeaders settings of the proxy (util.GetProxyHeaders) that route generation writes into
+	// virtual hosts and route actions
+	AttemptCount   bool
+	XForwardedHost bool
 	// IPMode is the IP family support of the proxy: the service addresses that become virtual host
 	// domains are filtered by it (Service.GetAllAddressesForProxy)
 	IPMode model.IPMode
@@ -149,6 +154,10 @@ func (r *Cache) Key() any {
 	h.WriteString(r.CatchAllCluster)
 	h.Write(Separator)
 	h.WriteString(strconv.Itoa(int(r.IPMode)))
+	h.Write(Separator)
+	h.WriteString(strconv.FormatBool(r.AttemptCount))
+	h.Write(Separator)
+	h.WriteString(strconv.FormatBool(r.XForwardedHost))
 	h.Write(Separator)
 
 	for _, svc := range r.Services {
